@@ -205,7 +205,52 @@ func genShared(repo, out string) {
 		}
 		fmt.Fprintf(&w, "  {| sw_file := %s; sw_line := %d; sw_kind_of := %s; sw_name := %s |}%s (* %s:%d %s %s *)\n", coqBytes(s.file), s.line, kinds[s.kind], coqBytes(s.name), sep, s.file, s.line, s.kind, safe(s.name))
 	}
-	w.WriteString("].\n")
+	w.WriteString("].\n\n")
+	// lock protocol of the registry (minify.go): which functions take the write lock, which the read lock
+	mf := parseFile(filepath.Join(repo, "minify.go"))
+	var wl, rl []string
+	for _, d := range mf.Decls {
+		fd, ok := d.(*ast.FuncDecl)
+		if !ok || fd.Body == nil {
+			continue
+		}
+		hasW, hasR := false, false
+		ast.Inspect(fd.Body, func(n ast.Node) bool {
+			if ce, ok := n.(*ast.CallExpr); ok {
+				if sel, ok := ce.Fun.(*ast.SelectorExpr); ok {
+					if inner, ok := sel.X.(*ast.SelectorExpr); ok && inner.Sel.Name == "mutex" {
+						switch sel.Sel.Name {
+						case "Lock":
+							hasW = true
+						case "RLock":
+							hasR = true
+						}
+					}
+				}
+			}
+			return true
+		})
+		if hasW {
+			wl = append(wl, fd.Name.Name)
+		}
+		if hasR {
+			rl = append(rl, fd.Name.Name)
+		}
+	}
+	sort.Strings(wl)
+	sort.Strings(rl)
+	emitNames := func(name string, l []string) {
+		fmt.Fprintf(&w, "Definition %s : list bytes := [", name)
+		for i, n := range l {
+			if i > 0 {
+				w.WriteString("; ")
+			}
+			fmt.Fprintf(&w, "%s (* %s *)", coqBytes(n), n)
+		}
+		w.WriteString("].\n")
+	}
+	emitNames("registry_write_lock_funcs", wl)
+	emitNames("registry_read_lock_funcs", rl)
 	writeIfChanged(filepath.Join(out, "SharedWrites_gen.v"), w.String())
 	_ = os.Stderr
 }
